@@ -371,7 +371,8 @@ example : (Conn.run (Conn.init 100) bridgeEvs).chans[0]? = some bridgeCh ∧
 /-- The bridge.  Any history `evs` of the connection model (any interleaving of callers, driver,
 server and faults), a search with channel `c` and operation record `o`, in a state where the driver
 has ended or the search's SearchResultDone has been routed; `sent` = the frames the server sent under
-the search's message ID (as far as the driver read them), in order.
+the search's message ID (as far as the driver read them; counted from the `p0`-th frame of the
+connection on — `p0` = what the server had sent when the search was registered, 0 = everything), in order.
 HYPOTHESIS `ChanComplete` (completeness of routing; being proved separately as `C01_complete`): the
 channel was given every one of those frames up to the one that ends the search.
 Then a stream — direct, or behind EntriesOnly — whose inner receive is fed by that channel
